@@ -4,9 +4,9 @@ From Coq Require Import ZArith List Bool PeanoNat Lia.
 From FT Require Import Model.Base Model.Obs Model.C08Split Model.C10Model Model.C10Check
                        Proofs.ObsP Proofs.C10ModelP Proofs.C10OpsP.
 Import ListNotations.
-Local Open Scope nat_scope.
+Local Open Scope N_scope.
 
-Definition root_lab (t : lt) : nat := match t with LF f _ _ => f | LB b _ => b end.
+Definition root_lab (t : lt) : N := match t with LF f _ _ => f | LB b _ => b end.
 Lemma root_lab_in t : In (root_lab t) (labels t).
 Proof. destruct t; left; reflexivity. Qed.
 Lemma root_lab_map r t : root_lab (map_labels r t) = r (root_lab t).
@@ -159,12 +159,12 @@ Proof.
 Qed.
 
 (* ---------- oracle plumbing *)
-Lemma zs_of_enc (g : nat -> Z) l : zs_of (map (fun x => VZ (g x)) l) = Some (map g l).
+Lemma zs_of_enc (g : N -> Z) l : zs_of (map (fun x => VZ (g x)) l) = Some (map g l).
 Proof. induction l as [| x l IH]; cbn; [reflexivity|]. rewrite IH. reflexivity. Qed.
 
 Lemma snap_parts_enc r s :
   snap_parts (enc_snap r s)
-  = Some (enc_et (erase (s_tree s)), map (fun x => Z.of_nat (r x)) (snap_labels s),
+  = Some (enc_et (erase (s_tree s)), map (fun x => Z.of_N (r x)) (snap_labels s),
           VL (map (fun x => enc_labs r (r_fibers x)) (s_ranks s))).
 Proof. unfold snap_parts, enc_snap, enc_labs. rewrite zs_of_enc. reflexivity. Qed.
 
@@ -177,10 +177,11 @@ Proof. induction l as [| s l IH]; cbn; [reflexivity|]. rewrite same_struct_refl,
 Lemma index_of_inj x y l : In x l -> index_of x l = index_of y l -> x = y.
 Proof.
   induction l as [| z l IH]; cbn; [tauto|]. intros Hin H.
-  destruct (x =? z) eqn:Ex, (y =? z) eqn:Ey; try discriminate.
-  - apply Nat.eqb_eq in Ex, Ey. congruence.
-  - destruct Hin as [-> | Hin]; [rewrite Nat.eqb_refl in Ex; discriminate|].
-    apply IH; [exact Hin | congruence].
+  destruct (N.eqb x z) eqn:Ex, (N.eqb y z) eqn:Ey.
+  - apply N.eqb_eq in Ex, Ey. congruence.
+  - exfalso. lia.
+  - exfalso. lia.
+  - destruct Hin as [-> | Hin]; [rewrite N.eqb_refl in Ex; discriminate|]. apply IH; [exact Hin | lia].
 Qed.
 
 Lemma In_dedup x l : forall seen, In x l -> ~ In x seen -> In x (dedup seen l).
@@ -189,7 +190,7 @@ Proof.
   destruct (mem y seen) eqn:Em.
   - destruct Hin as [-> | Hin]; [|apply IH; assumption].
     apply (proj2 (mem_false_iff x seen)) in Hns. congruence.
-  - destruct (Nat.eq_dec x y) as [-> | Hne]; [left; reflexivity|]. right.
+  - destruct (N.eq_dec x y) as [-> | Hne]; [left; reflexivity|]. right.
     destruct Hin as [-> | Hin]; [contradiction|]. apply IH; [exact Hin|].
     intros [-> | H]; [contradiction | contradiction].
 Qed.
@@ -209,7 +210,7 @@ Proof.
   apply forallb_forall. intros z Hz. apply in_map_iff in Hz. destruct Hz as [x [<- Hx]].
   apply negb_true_iff. destruct (existsb _ _) eqn:E; [|reflexivity].
   apply existsb_exists in E. destruct E as [z' [Hz' E]]. apply in_map_iff in Hz'.
-  destruct Hz' as [y [<- Hy]]. apply Z.eqb_eq in E. apply Nat2Z.inj in E.
+  destruct Hz' as [y [<- Hy]]. apply Z.eqb_eq in E. apply N2Z.inj in E.
   exfalso. eapply H; eauto.
 Qed.
 
@@ -220,7 +221,7 @@ Proof. intros Hs Hl. apply in_flat_map. exists s. auto. Qed.
 Lemma boundedb_hi nx s : boundedb nx s = true -> hi_snap nx s.
 Proof.
   unfold boundedb. intros H l Hl. rewrite forallb_forall in H. apply H in Hl.
-  apply Nat.ltb_lt. exact Hl.
+  apply N.ltb_lt. exact Hl.
 Qed.
 
 (* ---------- the faithful model meets the oracle *)
@@ -314,10 +315,10 @@ Lemma disjoint_enc_inv r a b :
 Proof.
   unfold disjoint_snaps. rewrite !snap_parts_enc. unfold disjointZ. intros H x y Hx Hy Heq.
   rewrite forallb_forall in H.
-  specialize (H (Z.of_nat (r x)) (in_map (fun x => Z.of_nat (r x)) _ _ Hx)).
+  specialize (H (Z.of_N (r x)) (in_map (fun x => Z.of_N (r x)) _ _ Hx)).
   apply negb_true_iff in H.
-  assert (existsb (Z.eqb (Z.of_nat (r x))) (map (fun x0 => Z.of_nat (r x0)) (snap_labels b)) = true) as E.
-  { apply existsb_exists. exists (Z.of_nat (r y)). split; [|rewrite Heq; apply Z.eqb_refl].
+  assert (existsb (Z.eqb (Z.of_N (r x))) (map (fun x0 => Z.of_N (r x0)) (snap_labels b)) = true) as E.
+  { apply existsb_exists. exists (Z.of_N (r y)). split; [|rewrite Heq; apply Z.eqb_refl].
     apply in_map_iff. exists y. split; [reflexivity | exact Hy]. }
   congruence.
 Qed.
